@@ -344,7 +344,8 @@ type C07Case struct {
 	StArgs    []*Tree   `json:"stargs,omitempty"`
 	Steps     []c07Step `json:"steps"`
 	Unordered bool      `json:"unordered"`
-	Origin    string    `json:"origin"` // corpus / generated / misuse
+	MapModel  string    `json:"mapmodel,omitempty"` // verdict of the Go finite-map model for observer cases: ok fail abstain
+	Origin    string    `json:"origin"`             // corpus / generated / misuse
 }
 
 var c07ModelledMeths = map[string]bool{}
@@ -449,14 +450,15 @@ func (c *C07Case) Program() (string, []string, []value.Value) {
 			b.WriteString(e)
 		} else {
 			b.WriteString("let m=" + e + "; [m.size(), m.list().size(), m.list(), [")
-			for k, a := range obs.Args {
+			other := argText(obs.Args[0])
+			for k, a := range obs.Args[1:] {
 				kv := argText(a)
 				if k > 0 {
 					b.WriteString(", ")
 				}
 				b.WriteString("[m.isAvail(" + kv + "), try m.get(" + kv + ") catch -1, try m.put(" + kv + ",0).size() catch -1]")
 			}
-			b.WriteString("], string(m)]")
+			b.WriteString("], string(m), [m=" + other + ", " + other + "=m]]")
 		}
 	}
 	return b.String(), names, vals
@@ -1611,12 +1613,14 @@ func c07Corpus() []*C07Case {
 			s("replace", c07Fn(1, &c07CExp{K: "map", MK: []string{"a"}, L: []*c07CExp{c07CInt(9)}})),
 			s("put", c07Val(c07TStr("d")), c07Val(c07TInt(4))),
 			s("#observe", c07Val(c07TStr("a")), c07Val(c07TStr("c")), c07Val(c07TStr("d")))),
+		c07BigReplaceWitness(25, 11), c07BigReplaceWitness(21, 12), c07BigReplaceWitness(20, 11), c07BigReplaceWitness(30, 23),
 	}
 }
 
 // ---------- the run ----------
 
 func c07Run(c *C07Case, id int, sum *Summary, cw *CaseWriter) {
+	c.c07Finish()
 	text, names, vals := c.Program()
 	o := c07RunReal(text, names, vals)
 	sum.Evaluations++
@@ -1665,7 +1669,9 @@ func c07Run(c *C07Case, id int, sum *Summary, cw *CaseWriter) {
 		sum.Sample(human)
 	}
 	cw.Add(c.Coq(id, obs))
-	if what, want := c.c07OracleVerdict(o); what != "" {
+	if what, want := c.c07MapVerdict(o); what != "" {
+		sum.GoViolations = append(sum.GoViolations, GoViolation{CaseID: id, What: what, Sig: sig, Human: human, Expected: want, Observed: shown})
+	} else if what, want := c.c07OracleVerdict(o); what != "" {
 		sum.GoViolations = append(sum.GoViolations, GoViolation{CaseID: id, What: what, Sig: sig, Human: human, Expected: want, Observed: shown})
 	} else if o.Kind == "panic" {
 		sum.GoViolations = append(sum.GoViolations, GoViolation{CaseID: id, What: "a built-in panicked instead of returning an error", Sig: sig, Human: human, Expected: "an error value", Observed: shown})
@@ -1695,14 +1701,14 @@ func c07HumanArgs(c *C07Case) []string {
 }
 
 func cmdC07(seed int64, tier, outDir string) {
-	n := 1400
+	n := 1150
 	if tier == "thorough" {
 		n = 60000
 	}
 	r := NewRng(seed)
 	sum := NewSummary("C07", seed, tier)
 	sum.Rule = "pipelines source(.method(args)){0..4} run through value.New().Generate; sources: lists (empty, singleton, duplicates, sorted, reversed, random ints incl. extremes, mixed int/float, nested lists/maps, strings, heterogeneous; eager or behind a lazy map stage), unicode strings, maps, static calls; callbacks from a closed pool with Coq twins; 7% of the steps are misuse on purpose; every 7th case is a sibling/source observation (let w = source.producer; [w.modified..., w, source] with append/set/reverse/+ on lists produced by movingWindow*, combineN, groupByEqual, top, skip, cross, map) and every 7th a map pipeline (literal/put/merge/replace chains up to 12) followed by the observer bundle size, list, isAvail, get, put, string for original, replacement-only and absent keys (call arity, argument type, callback arity, callback failing at an element or returning the wrong type, method of another type). Every case applies at least one built-in; distinct by program text and argument values"
-	cw := NewCaseWriter(outDir, "From P2 Require Import Base.Prelude Sem.Num Sem.Syntax Sem.Ops Lib.Names Lib.Builtins Run.C07Run.", "c07_case", "c07_id", "c07_im", "c07_is", 450)
+	cw := NewCaseWriter(outDir, "From P2 Require Import Base.Prelude Sem.Num Sem.Syntax Sem.Ops Lib.Names Lib.Builtins Run.C07Run.", "c07_case", "c07_id", "c07_im", "c07_is", 300)
 	id := 0
 	if optReplay != "" {
 		var c C07Case
@@ -1838,6 +1844,9 @@ func (r *Rng) c07ForkCase() *C07Case {
 
 // literal / put / merge / replace chains on a map, then every keyed and iteration observer at once
 func (r *Rng) c07MapObserveCase() *C07Case {
+	if r.Chance(0.22) {
+		return r.c07BigMapCase()
+	}
 	c := &C07Case{Origin: "map-observe"}
 	pool := []string{"a", "b", "c", "k", "zz"}
 	odd := []string{"", "ä", "x y"}
@@ -1931,5 +1940,283 @@ func (r *Rng) c07MapObserveCase() *C07Case {
 		obs.Args = append(obs.Args, c07Val(c07TStr(k)))
 	}
 	c.Steps = append(c.Steps, obs)
+	return c
+}
+
+// long wrapper chains (replace / put / merge, depth 10..40) over big bases (20..60 keys): replacement
+// keys are drawn from present and from absent keys; after 11 nested replaces the implementation
+// flattens the chain (into a Go map above 20 keys), which must not change any observer
+func (r *Rng) c07BigMapCase() *C07Case {
+	c := &C07Case{Origin: "map-observe"}
+	n := 19 + r.Pick(8) // around the 20-key threshold of createFlat
+	if r.Chance(0.25) {
+		n = 27 + r.Pick(34)
+	}
+	c.Src = c07TMap(nil)
+	for i := 0; i < n; i++ {
+		c.Src.Keys = append(c.Src.Keys, fmt.Sprintf("k%d", i))
+		c.Src.Items = append(c.Src.Items, c07TInt(i))
+	}
+	absent := []string{"zz", "x1", "k999", "extra"}
+	depth := 10 + r.Pick(17)
+	if r.Chance(0.2) {
+		depth = 27 + r.Pick(14)
+	}
+	added := []string{}
+	for i := 0; i < depth; i++ {
+		switch x := r.Pick(100); {
+		case x < 5:
+			k := fmt.Sprintf("p%d", i)
+			added = append(added, k)
+			c.Steps = append(c.Steps, c07Step1("put", c07Val(c07TStr(k)), c07Val(c07TInt(100+i))))
+		case x < 9:
+			k := fmt.Sprintf("g%d", i)
+			added = append(added, k)
+			c.Steps = append(c.Steps, c07Step1("+", c07Val(c07TMap([]string{k}, c07TInt(200+i)))))
+		default:
+			lit := &c07CExp{K: "map"}
+			seen := map[string]bool{}
+			for j := 0; j < 1+r.Pick(3); j++ {
+				k := fmt.Sprintf("k%d", r.Pick(n))
+				if seen[k] {
+					continue
+				}
+				seen[k] = true
+				var v *c07CExp = c07CInt(1000 + i*10 + j)
+				if r.Chance(0.4) {
+					v = c07COp("+", &c07CExp{K: "member", A: c07CArg(0), Key: k}, c07CInt(1))
+				}
+				lit.MK = append(lit.MK, k)
+				lit.L = append(lit.L, v)
+			}
+			if r.Chance(0.5) {
+				k := absent[r.Pick(len(absent))]
+				if r.Chance(0.3) {
+					k = fmt.Sprintf("e%d", i)
+				}
+				lit.MK = append(lit.MK, k)
+				lit.L = append(lit.L, c07CInt(7000+i))
+			}
+			c.Steps = append(c.Steps, c07Step1("replace", c07Fn(1, lit)))
+		}
+	}
+	obs := c07Step1("#observe")
+	keys := []string{"k0", fmt.Sprintf("k%d", n-1), fmt.Sprintf("k%d", r.Pick(n)), fmt.Sprintf("k%d", n), "nokey"}
+	keys = append(keys, absent...)
+	keys = append(keys, fmt.Sprintf("e%d", depth-1), fmt.Sprintf("e%d", 10))
+	if len(added) > 0 {
+		keys = append(keys, added[r.Pick(len(added))])
+	}
+	for _, k := range keys {
+		obs.Args = append(obs.Args, c07Val(c07TStr(k)))
+	}
+	c.Steps = append(c.Steps, obs)
+	return c
+}
+
+// ---------- Go-side finite-map model of put / + / replace chains (int values) ----------
+
+type c07FM struct {
+	keys []string
+	vals map[string]*Tree
+}
+
+func (m *c07FM) put(k string, v *Tree) {
+	if _, ok := m.vals[k]; !ok {
+		m.keys = append(m.keys, k)
+	}
+	m.vals[k] = v
+}
+
+func (m *c07FM) tree() *Tree {
+	t := c07TMap(nil)
+	for _, k := range m.keys {
+		t.Keys = append(t.Keys, k)
+		t.Items = append(t.Items, m.vals[k])
+	}
+	return t
+}
+
+// evaluates the steps before the observer bundle: "ok" with the resulting map, "fail" if the chain must
+// report an error, "abstain" if it uses something this model does not cover
+func (c *C07Case) c07MapModelRun() (*c07FM, string) {
+	if c.Src == nil || c.Src.Kind != "map" {
+		return nil, "abstain"
+	}
+	m := &c07FM{vals: map[string]*Tree{}}
+	for i, k := range c.Src.Keys {
+		m.put(k, c.Src.Items[i])
+	}
+	for _, st := range c.Steps[:len(c.Steps)-1] {
+		switch st.M {
+		case "put":
+			if len(st.Args) != 2 || st.Args[0].V == nil || st.Args[1].V == nil || st.Args[0].V.Kind != "str" {
+				return nil, "abstain"
+			}
+			if _, ok := m.vals[st.Args[0].V.S]; ok {
+				return nil, "fail"
+			}
+			m.put(st.Args[0].V.S, st.Args[1].V)
+		case "+":
+			o := st.Args[0].V
+			if o == nil || o.Kind != "map" {
+				return nil, "abstain"
+			}
+			for _, k := range o.Keys {
+				if _, ok := m.vals[k]; ok {
+					return nil, "fail"
+				}
+			}
+			for i, k := range o.Keys {
+				m.put(k, o.Items[i])
+			}
+		case "replace":
+			if len(st.Args) != 1 || st.Args[0].Body == nil || st.Args[0].N != 1 {
+				return nil, "abstain"
+			}
+			body := st.Args[0].Body
+			if body.K != "map" {
+				if body.K == "lit" {
+					return nil, "fail"
+				}
+				return nil, "abstain"
+			}
+			rep := map[string]*Tree{}
+			for i, k := range body.MK {
+				e := body.L[i]
+				switch {
+				case e.K == "lit":
+					rep[k] = e.V
+				case e.K == "member" && e.A.K == "arg":
+					v, ok := m.vals[e.Key]
+					if !ok {
+						return nil, "fail"
+					}
+					rep[k] = v
+				case e.K == "op" && e.Op == "+" && e.A.K == "member" && e.A.A.K == "arg" && e.B.K == "lit" && e.B.V.Kind == "int":
+					v, ok := m.vals[e.A.Key]
+					if !ok {
+						return nil, "fail"
+					}
+					if v.Kind != "int" {
+						return nil, "abstain"
+					}
+					rep[k] = c07TInt(v.I + e.B.V.I)
+				default:
+					return nil, "abstain"
+				}
+			}
+			// only keys the map HAS are replaced
+			for _, k := range m.keys {
+				if v, ok := rep[k]; ok {
+					m.vals[k] = v
+				}
+			}
+		default:
+			return nil, "abstain"
+		}
+	}
+	return m, "ok"
+}
+
+// hands the map the model expects to the observer bundle (for m = expected and expected = m)
+func (c *C07Case) c07Finish() {
+	if len(c.Steps) == 0 {
+		return
+	}
+	last := &c.Steps[len(c.Steps)-1]
+	if last.M != "#observe" || (len(last.Args) > 0 && last.Args[0].V != nil && last.Args[0].V.Kind == "map") {
+		return
+	}
+	m, verdict := c.c07MapModelRun()
+	c.MapModel = verdict
+	exp := c.Src
+	if verdict == "ok" {
+		exp = m.tree()
+		if len(exp.Keys) > 20 || len(c.Src.Keys) > 20 {
+			c.Unordered = true // flattened into a Go map: iteration order is not specified
+		}
+	}
+	if exp == nil || exp.Kind != "map" {
+		exp = c07TMap(nil)
+	}
+	last.Args = append([]c07Arg{c07Val(exp)}, last.Args...)
+}
+
+// the Go model's verdict on the observers that do not depend on order: size, isAvail, equality
+func (c *C07Case) c07MapVerdict(o c07Obs) (string, string) {
+	if c.MapModel != "ok" && c.MapModel != "fail" {
+		return "", ""
+	}
+	if c.MapModel == "fail" {
+		if o.Kind == "ok" {
+			return "the Go finite-map model requires an error, the implementation returned a value", "error"
+		}
+		return "", ""
+	}
+	if o.Kind != "ok" {
+		return "the Go finite-map model computes a map, the implementation reported " + o.Kind + ": " + o.Err, "a value"
+	}
+	last := c.Steps[len(c.Steps)-1]
+	exp := last.Args[0].V
+	has := map[string]bool{}
+	for _, k := range exp.Keys {
+		has[k] = true
+	}
+	st := funcGen.NewEmptyStack[value.Value]()
+	l, ok := o.Val.(*value.List)
+	if !ok {
+		return "observer bundle is not a list", ""
+	}
+	items, err := l.ToSlice(st)
+	if err != nil || len(items) != 6 {
+		return "observer bundle malformed", ""
+	}
+	if sz, ok := items[0].(value.Int); !ok || int(sz) != len(exp.Keys) {
+		return fmt.Sprintf("size() is %v, the finite-map model has %d keys", items[0], len(exp.Keys)), fmt.Sprint(len(exp.Keys))
+	}
+	if ls, ok := items[1].(value.Int); !ok || int(ls) != len(exp.Keys) {
+		return fmt.Sprintf("list().size() is %v, the finite-map model has %d keys", items[1], len(exp.Keys)), fmt.Sprint(len(exp.Keys))
+	}
+	if eq, ok := items[5].(*value.List); ok {
+		es, _ := eq.ToSlice(st)
+		for i, e := range es {
+			if b, ok := e.(value.Bool); !ok || !bool(b) {
+				return fmt.Sprintf("the result is not equal (=, direction %d) to the map of the finite-map model", i), "true"
+			}
+		}
+	}
+	if per, ok := items[3].(*value.List); ok {
+		ps, _ := per.ToSlice(st)
+		for i, p := range ps {
+			k := last.Args[1+i].V.S
+			tl, ok := p.(*value.List)
+			if !ok {
+				continue
+			}
+			ts, _ := tl.ToSlice(st)
+			if len(ts) == 3 {
+				if b, ok := ts[0].(value.Bool); ok && bool(b) != has[k] {
+					return fmt.Sprintf("isAvail(%q) is %v, the finite-map model says %v", k, bool(b), has[k]), fmt.Sprint(has[k])
+				}
+			}
+		}
+	}
+	return "", ""
+}
+
+// n keys k0..k(n-1), depth times replace(m->{k1:m.k1+1, zz:7}): the key zz must never appear
+// (flattening of the 11th nested replace of a map with more than 20 keys once copied it in)
+func c07BigReplaceWitness(n, depth int) *C07Case {
+	c := &C07Case{Origin: "corpus", Src: c07TMap(nil)}
+	for i := 0; i < n; i++ {
+		c.Src.Keys = append(c.Src.Keys, fmt.Sprintf("k%d", i))
+		c.Src.Items = append(c.Src.Items, c07TInt(i))
+	}
+	for i := 0; i < depth; i++ {
+		c.Steps = append(c.Steps, c07Step1("replace", c07Fn(1, &c07CExp{K: "map", MK: []string{"k1", "zz"},
+			L: []*c07CExp{c07COp("+", &c07CExp{K: "member", A: c07CArg(0), Key: "k1"}, c07CInt(1)), c07CInt(7)}})))
+	}
+	c.Steps = append(c.Steps, c07Step1("#observe", c07Val(c07TStr("k0")), c07Val(c07TStr("k1")), c07Val(c07TStr("zz")), c07Val(c07TStr("nokey"))))
 	return c
 }
